@@ -81,3 +81,32 @@ func ZZ_C10_UnpackHint_SOP_range_mode5() {
 	ok := v.UnpackHint(buf)
 	zzAssert(!ok, "switch-over point above omega is refused")
 }
+
+// ordering of the hint indices inside one polynomial (strictly increasing, FIPS 204 Alg. 21 line 9):
+// two or three hints, all in the first or all in the last polynomial, every index value (so also
+// 255 followed by smaller ones) and arbitrary padding bytes
+//
+//zz: prop=C04 also=C02 tier=quick backend=bv maxpaths=60000
+func ZZ_C04_UnpackHint_index_order_mode5() {
+	buf := make([]byte, Omega+K)
+	zzFill("y", buf)
+	c := byte(zzPick("hints", 2, 3))
+	first := zzPick("polynomial", 0, K-1)
+	for i := 0; i < K; i++ {
+		buf[Omega+i] = 0
+		if i >= first {
+			buf[Omega+i] = c
+		}
+	}
+	var v VecK
+	ok := v.UnpackHint(buf)
+	refOK, ref := zzHintBitUnpackRef(buf)
+	zzAssert(ok == refOK, "UnpackHint verdict = HintBitUnpack verdict (index order)")
+	if ok {
+		eq := []bool{}
+		for j := 0; j < 256; j++ {
+			eq = append(eq, v[first][j] == ref[first][j])
+		}
+		zzAssert(zzAnd(eq...), "UnpackHint vector = HintBitUnpack vector (index order)")
+	}
+}
